@@ -459,15 +459,13 @@ func c12Invalid(e *core.Env, rep *core.Report, bin, root string) {
 		}
 	}
 	for _, l := range []string{"map", "map A B C", "map A.B", "map A B.C", "ignore", "enum:map A", "enum:map A B C", "enum:map A @nope", "enum:transform bogus x", "autoMap", "autoMap A B", "update", "update a b", "context", "context a b", "default", "default Nope", "map V V | Nope", "context nosuch", "map V V | vcase/w/nosuchpkg:F", "default Zzz.*"} {
-		if l == "ignore" {
-			continue // empty ignore is not judged
-		}
 		invs = append(invs, inv{"method", l, "malformed method setting"})
 	}
 	for _, l := range []string{"name", "name A B", "output:file", "output:file a b", "output:format", "output:format bogus", "output:format struct function", "output:package a b", "extend Nope", "extend (", "enum:exclude (", "output:format assign-variable",
-		"extend Zzz.*", "extend vcase/w/...:F", "extend vcase/w/nosuchpkg:F", "extend p:"} {
+		"extend Zzz.*", "extend vcase/w/...:F", "extend vcase/w/nosuchpkg:F", "extend p:", "extend"} {
 		invs = append(invs, inv{"converter", l, "malformed converter setting"})
 	}
+	invs = append(invs, inv{"cli", "extend", "missing value"})
 	// conflicts
 	type conflict struct{ cli, conv, meth []string }
 	conflicts := []conflict{
@@ -512,6 +510,7 @@ func c12Invalid(e *core.Env, rep *core.Report, bin, root string) {
 		sig        string
 		why, line  string
 		level      string
+		want       string // where the diagnostic has to point when several levels carry lines: cli | file
 	}
 	var jobs []job
 	for i, v := range invs {
@@ -525,6 +524,22 @@ func c12Invalid(e *core.Env, rep *core.Report, bin, root string) {
 			j.meth = []string{v.line}
 		}
 		jobs = append(jobs, j)
+	}
+	// several extend lines / levels, exactly one of them unusable: the diagnostic names THAT one
+	for i, x := range []struct {
+		cli, conv []string
+		want      string
+	}{
+		{[]string{"extend Nope"}, []string{"extend F"}, "cli"},
+		{[]string{"extend F"}, []string{"extend Nope"}, "file"},
+		{nil, []string{"extend F", "extend Nope"}, "file"},
+		{nil, []string{"extend Nope", "extend F"}, "file"},
+		{[]string{"extend F", "extend Nope"}, nil, "cli"},
+		{[]string{"extend F"}, []string{"extend F", "extend Nope"}, "file"},
+		{[]string{"extend F", "extend Nope"}, []string{"extend F"}, "cli"},
+		{[]string{"extend F"}, []string{"extend F", "extend F", "extend Zzz.*"}, "file"},
+	} {
+		jobs = append(jobs, job{name: fmt.Sprintf("x%02d", i), cli: x.cli, conv: x.conv, why: "one unusable extend entry among several", line: "extend Nope", level: x.want, want: x.want})
 	}
 	// settings written on a custom function: only context is defined there
 	for i, l := range []string{"nonsense foo", "context", "context a b", "ignore V", "contextt c", "extend F", "wrapErrors"} {
@@ -560,7 +575,7 @@ func c12Invalid(e *core.Env, rep *core.Report, bin, root string) {
 		// quick: a seed-rotated half
 		var sel []job
 		for i, j := range jobs {
-			if (i+int(e.Seed))%2 == 0 || strings.HasPrefix(j.name, "w") || strings.HasPrefix(j.name, "f") || strings.HasPrefix(j.name, "o") || strings.HasPrefix(j.name, "p") {
+			if (i+int(e.Seed))%2 == 0 || strings.HasPrefix(j.name, "w") || strings.HasPrefix(j.name, "f") || strings.HasPrefix(j.name, "o") || strings.HasPrefix(j.name, "p") || strings.HasPrefix(j.name, "x") || j.line == "extend" || j.line == "ignore" {
 				sel = append(sel, j)
 			}
 		}
@@ -602,6 +617,10 @@ func c12Invalid(e *core.Env, rep *core.Report, bin, root string) {
 		// the diagnostic must name where the line was written
 		named := false
 		switch {
+		case j.want == "cli":
+			named = strings.Contains(gr.Stderr, "command line") && !strings.Contains(gr.Stderr, "input.go:")
+		case j.want == "file":
+			named = strings.Contains(gr.Stderr, "input.go:") && !strings.Contains(gr.Stderr, "command line")
 		case len(j.cli) > 0 && len(j.conv) == 0 && len(j.meth) == 0:
 			named = strings.Contains(gr.Stderr, "command line")
 		default:
